@@ -183,3 +183,27 @@ func TestTrySendMayOvertakeReceiver(t *testing.T) {
 		t.Fatalf("bound 1: want both outcomes, got %v", out)
 	}
 }
+
+// Bare yields must not make two positions of a thread look like one state: a violation that needs
+// the thread to get past several yields has to be found with pruning on.
+func TestYieldsDoNotCollapseStates(t *testing.T) {
+	x := &vsched.Explorer{Bound: 0, Prune: true,
+		Body: func() {
+			n := 0
+			done := make(chan bool, 1)
+			vsched.Go(func() {
+				for i := 0; i < 5; i++ {
+					vsched.Yield()
+					n++
+				}
+				vsched.Send(done, true)
+			})
+			vsched.Recv(done)
+			vsched.Note(fmt.Sprint(n))
+		},
+		Check: func(e *vsched.Exec) (string, *vsched.Violation) { return fmt.Sprint(e.Log), nil }}
+	x.Explore()
+	if x.Stats.Outcomes["[5]"] == 0 {
+		t.Fatalf("the execution never completed: %v (execs %d)", x.Stats.Outcomes, x.Stats.Execs)
+	}
+}
